@@ -52,6 +52,9 @@ def templates(cls):
          ["select", [["as", ["col", "A", N[5]], N[7]], ["col", "B", N[6]]]], ["where", [["gt", ["col", "B", N[8]], ["raw", 1]]]],
          ["groupby", [["as", ["col", "A", N[5]], N[7]]]], ["orderby", [["as", ["col", "A", N[5]], N[7]], ["col", "B", N[6]]]]],
         {"A": T(N[0], N[1], N[2]), "B": T(N[3], None, N[4])})
+    # ORDER BY / GROUP BY naming a select item's alias by a string
+    t["orderby_alias_name"] = lambda N: q([["from_", [["src", "A"]]], ["select", [["as", ["add", ["col", "A", N[1]], ["raw", 1]], N[2]], ["as", ["fn", "Count", [["col", "A", N[3]]]], N[4]]]],
+                                           ["groupby", [["py", N[2]]]], ["orderby", [["py", N[4]]]], ["orderby", [["py", N[2]]]]], {"A": T(N[0])})
     t["db_schema_table"] = lambda N: q([["from_", [["src", "A"]]], ["select", [["col", "A", N[3]]]], ["join", [["src", "B"], ["enum", "JoinType", "inner"]], {}, ["using", [["py", N[5]]]]]],
                                       {"A": T(N[0], ["schema", N[2], ["schema", N[1], None]], None), "B": T(N[4], ["schema", N[6], ["database", N[7]]], None)})
     t["plain_unaliased"] = lambda N: q([["from_", [["src", "A"]]], ["from_", [["src", "B"]]], ["select", [["col", "A", N[2]], ["col", "B", N[3]], ["py", N[4]]]], ["where", [["eq", ["col", "A", N[2]], ["col", "B", N[3]]]]],
